@@ -53,6 +53,13 @@ CHECKS = {
    note="exhaustive: true is per phase (fixed alphabet and length, per sampled definition), recorded in the evidence phases; the definitions themselves are sampled. Only menu regexes are used so the reference matcher is exact; documented-meaningless patterns are not generated. Trusts the ~80-line reference matcher and reference decoder in harness/src/props/c10.rs.",
    technique="differential property testing against a reference matcher/decoder: small-alphabet exhaustive enumeration of paths and escape strings + proptest-generated patterns and long paths; round-trip (build then match)",
    design_ref="DESIGN.md §5 C10"),
+ "C14": dict(
+   engine="pbt",
+   category="exploration",
+   text="A reference RFC 6455 frame encoder/decoder, SHA-1 and base64 written in the harness. (roundtrip) sequences of 1-8 messages of every kind (payload lengths 0/1/125/126/127/65535/65536/70000/random, fragmented messages) are encoded by the client or server Codec; the byte layout is checked by the reference decoder (mask bit per role, minimal length form, payload); the other role's Codec decodes them under random cuts to the same messages; messages over the receiver's max_size must be refused. (cuts-exhaustive / stream) raw frame sequences - all opcodes incl. reserved, right and wrong masking, masks 0/ff/1234/random, FIN combinations - are decoded whole and with EVERY single cut position (streams <= 400 bytes) or random multi-cuts at buffer alignments 0-3: same frames, same error at the same frame; a reference state machine names the first illegal frame (wrong masking, reserved opcode, fragmented or over-long control frame, continuation without start, fragmented or unfragmented data frame inside a fragmented message, payload over max_size) and the decoder must fail exactly there. (oversize) a header announcing max_size+1 .. 2^63 bytes with 0-300 payload bytes supplied must be refused at once and must not grow the decode buffer. (handshake) request heads from a grammar over method / Upgrade / Connection / Sec-WebSocket-Version / key bytes, parsed by the real h1 decoder: accepted iff the reference predicate holds (the 6912-point menu space is enumerated completely), Sec-WebSocket-Accept = base64(SHA-1(key+GUID)) by the harness's own SHA-1.",
+   note="RSV bits and UTF-8 validity are not claimed and not checked. An over-long Close turned into Close(None) counts as refusal. Token-substring laxness of the handshake (contains(\"websocket\")) is not probed beyond the menu. Trusts the reference codec/SHA-1/base64 in harness/src/props/c14.rs (SHA-1 is cross-checked against hash_key on every accepted handshake).",
+   technique="differential/round-trip property testing against reference implementations; metamorphic segmentation relation with exhaustive single cuts; reference protocol state machine as oracle",
+   design_ref="DESIGN.md §5 C14"),
  "C01": dict(
    engine="simnet",
    category="exploration",
